@@ -139,6 +139,7 @@ def sensitivity(argv):
     ap.add_argument('--only')
     ap.add_argument('--tier', default='quick')
     ap.add_argument('--runs', type=int)
+    ap.add_argument('--full', action='store_true', help='run every batch to the end even after the first violation')
     a = ap.parse_args(argv)
     items = []
     for meta in sorted(glob.glob(os.path.join(HERE, 'seeded', '*', 'meta.json'))):
@@ -170,6 +171,8 @@ def sensitivity(argv):
                 t0 = time.time()
                 env = dict(os.environ)
                 env.update({'VERIF_REPO': d, 'VERIF_SCRATCH_EVIDENCE': '1'})
+                if not a.full and expected != 'not_caught':
+                    env['VERIF_STOP_AFTER_NEW'] = '1'       # "caught" needs one violation, not the whole batch
                 cmd = [os.path.join(HERE, 'check'), pr, '--tier', a.tier, '--no-shrink']
                 if a.runs:
                     cmd += ['--runs', str(a.runs)]
@@ -191,8 +194,20 @@ def sensitivity(argv):
                                                   json.dumps(detail)[:260]))
         finally:
             shutil.rmtree(d, ignore_errors=True)
-    with open(os.path.join(HERE, 'evidence', 'sensitivity.json'), 'w') as f:
-        json.dump(report, f, indent=1, sort_keys=True)
+    out = os.path.join(HERE, 'evidence', 'sensitivity.json')
+    if a.only and os.path.exists(out):
+        # a partial run updates the entries it re-ran and keeps the rest of the last full report
+        try:
+            with open(out) as f:
+                merged = json.load(f)
+        except ValueError:
+            merged = {}
+        merged.update(report)
+        to_write = merged
+    else:
+        to_write = report
+    with open(out, 'w') as f:
+        json.dump(to_write, f, indent=1, sort_keys=True)
     print('sensitivity: %d mutants, %d missed' % (len(report), missed))
     return 1 if missed else 0
 
